@@ -63,6 +63,7 @@ package shrex_getter
 //@ func (*Getter).GetEDS
 //@   property C06
 //@   noframe
+//@   requires header != nil && header.DAH != nil
 //@   assume $Idle
 //@   ensures err != nil ==> result0 == nil
 
@@ -72,3 +73,50 @@ package shrex_getter
 //@   requires header != nil && header.DAH != nil
 //@   assume $Idle
 //@   ensures err != nil ==> result0 == nil
+
+//@ func (*Getter).GetRangeNamespaceData
+//@   property C06 C01
+//@   noframe
+//@   requires header != nil && header.DAH != nil
+//@   assume $Idle
+//@   ensures err != nil ==> result0.Shares == nil && result0.FirstIncompleteRowProof == nil && result0.LastIncompleteRowProof == nil
+
+// What the request loop calls "verified" for each kind of request: the handle closure passes only when
+// the container's own verifier accepted *this* response for the roots of *this* header and the
+// requested row / namespace / range ($RowVerified, $NDVerified, $RangeVerified, $EDSVerified are the
+// events "that verifier returned nil", defined at the verifiers in share/shwap and share/eds).
+//@ func (*Getter).GetRow$3
+//@   property C06 C01
+//@   noframe
+//@   havoc $RowVerified
+//@   requires header != nil && header.DAH != nil && 0 <= rowIndex && rowIndex < len(header.DAH.RowRoots)
+//@   callpre Row).Verify: deref($arg0) == response && $arg1 == header.DAH && $arg2 == rowIndex
+//@   ensures result == nil ==> $RowVerified
+
+//@ func (*Getter).GetEDS$3
+//@   property C06
+//@   noframe
+//@   havoc $EDSVerified
+//@   requires header != nil && header.DAH != nil
+//@   callpre eds.ReadAccessor: $arg2 == header.DAH
+//@   ensures result == nil ==> $EDSVerified
+
+//@ func (*Getter).GetNamespaceData$3
+//@   property C06 C02
+//@   noframe
+//@   havoc $NDVerified
+//@   requires dah != nil
+//@   callpre NamespaceData).Verify: $arg0 == response && $arg1 == dah && $arg2 == namespace
+//@   ensures result == nil ==> $NDVerified
+
+// The range verifier is given the coordinates of From and To-1 in the square of this header and
+// exactly the row roots of the rows the range touches.
+//@ func (*Getter).GetRangeNamespaceData$3
+//@   property C06 C01
+//@   noframe
+//@   havoc $RangeVerified
+//@   requires header != nil && header.DAH != nil
+//@   callpre RangeNamespaceData).VerifyInclusion: deref($arg0) == response && $arg3 == len(header.DAH.RowRoots)/2
+//@   callpre RangeNamespaceData).VerifyInclusion: $arg1.Row * $arg3 + $arg1.Col == from && $arg2.Row * $arg3 + $arg2.Col == to - 1
+//@   callpre RangeNamespaceData).VerifyInclusion: $arg4 == header.DAH.RowRoots[$arg1.Row:$arg2.Row+1]
+//@   ensures result == nil ==> $RangeVerified
